@@ -20,7 +20,7 @@ import (
 
 func TestVerifC09Sockets(t *testing.T) {
 	L := ev.Begin("C09", "c09-sockets", "exploration",
-		"real loopback sockets through the real ServeTCP of tcp / tcp+sni / tcp-dynamic: the finishing side {client uploads then closes, upstream sends then closes} x size {64 kB, 8 MB (more than the socket buffers hold)} x a receiver that reads slowly (64 kB per ms); oracle: the receiver gets every byte (sha256) followed by a clean EOF, not a reset; and through tcp.Server with read/write timeouts: a client silent for longer than the write timeout can still send afterwards, and data a client sends after the upstream half-closed still arrives. non-trivial = every scenario")
+		"real loopback sockets through the real ServeTCP of tcp / tcp+sni / tcp-dynamic: the finishing side {client uploads then closes, upstream sends then closes} x size {64 kB, 8 MB (more than the socket buffers hold)} x a receiver that reads slowly (64 kB per ms); oracle: the receiver gets every byte (sha256) followed by a clean EOF, not a reset; and through tcp.Server with read/write timeouts: a client silent for longer than the write timeout can still send afterwards, and data a client sends after the upstream half-closed still arrives; and a reply that starts 6.5s after the client half-closed and takes another second arrives whole. non-trivial = every scenario")
 	for _, kind := range []string{"tcp", "sni", "dynamic"} {
 		for _, dir := range []string{"upload", "download"} {
 			for _, size := range []int{64 << 10, 8 << 20} {
@@ -293,6 +293,88 @@ func TestVerifC09Sockets(t *testing.T) {
 		}
 		srv.Close()
 		up.Close()
+	}
+	// a direction that goes on for long after the other one has finished: the client half-closes after its
+	// request, the upstream takes 6.5 seconds of real time to think and then sends a reply in two parts a second
+	// apart. There is no time limit on a tunnel that one side has finished with. (The three listener kinds run
+	// side by side; the waits are stimuli, nothing is asserted on them.)
+	{
+		type res struct {
+			kind, got string
+		}
+		out := make(chan res, 3)
+		reply := bytes.Repeat([]byte("late reply. "), 30)
+		for _, kind := range []string{"tcp", "sni", "dynamic"} {
+			kind := kind
+			go func() {
+				up, err := net.Listen("tcp", "127.0.0.1:0")
+				if err != nil {
+					panic(err)
+				}
+				defer up.Close()
+				tb, err := route.NewTable(bytes.NewBufferString(fmt.Sprintf("route add svc :1234 tcp://%s opts \"proto=tcp\"\n", up.Addr().String())))
+				if err != nil {
+					panic(err)
+				}
+				var target *route.Target
+				for _, rs := range tb {
+					target = rs[0].Targets[0]
+				}
+				lookup := func(string) *route.Target { return target }
+				var h Handler
+				switch kind {
+				case "tcp":
+					h = &Proxy{Lookup: lookup, DialTimeout: 5 * time.Second}
+				case "sni":
+					h = &SNIProxy{Lookup: lookup, DialTimeout: 5 * time.Second}
+				default:
+					h = &DynamicProxy{Lookup: lookup, DialTimeout: 5 * time.Second}
+				}
+				front, err := net.Listen("tcp", "127.0.0.1:0")
+				if err != nil {
+					panic(err)
+				}
+				srv := &Server{Handler: h}
+				go srv.Serve(front)
+				defer srv.Close()
+				go func() {
+					c, err := up.Accept()
+					if err != nil {
+						return
+					}
+					defer c.Close()
+					c.SetDeadline(time.Now().Add(60 * time.Second))
+					io.Copy(io.Discard, c) // until the client's half-close arrives
+					time.Sleep(6500 * time.Millisecond)
+					c.Write(reply[:100])
+					time.Sleep(time.Second)
+					c.Write(reply[100:])
+				}()
+				cl, err := net.Dial("tcp", front.Addr().String())
+				if err != nil {
+					panic(err)
+				}
+				defer cl.Close()
+				cl.SetDeadline(time.Now().Add(60 * time.Second))
+				if kind == "sni" {
+					cl.Write(c09Hello)
+				}
+				cl.Write([]byte("request"))
+				cl.(*net.TCPConn).CloseWrite()
+				b, _ := io.ReadAll(cl)
+				out <- res{kind, string(b)}
+			}()
+		}
+		for i := 0; i < 3; i++ {
+			r := <-out
+			L.Case()
+			L.NontrivialKey("late-reply/" + r.kind)
+			d := map[string]interface{}{"listener": r.kind, "client": "half-closes after its request", "upstream": "replies 6.5s later, in two parts a second apart", "reply_bytes_received": len(r.got), "reply_bytes_sent": len(reply)}
+			L.Sample(d)
+			if r.got != string(reply) {
+				L.Violation("reply-cut-off-after-client-half-close/"+r.kind+"/late-reply", d)
+			}
+		}
 	}
 	L.End(true)
 }
